@@ -36,6 +36,31 @@ def _hook(event, args):
 
 
 _hook_installed = False
+_TRIP = []        # (module, attr, original)
+
+
+def _arm_tripwires():
+    """deserialisers / evaluators that must never be reached from brine.load"""
+    import pickle
+    import marshal
+    import builtins
+    for mod, attr in ((pickle, "loads"), (pickle, "load"), (pickle, "Unpickler"), (marshal, "loads"),
+                      (builtins, "eval"), (builtins, "exec"), (builtins, "__import__"), (builtins, "compile"),
+                      (builtins, "open")):
+        orig = getattr(mod, attr)
+
+        def trip(*a, _n="%s.%s" % (mod.__name__, attr), _o=orig, **kw):
+            if _audit["on"]:
+                _audit["events"].append("call:" + _n)
+            return _o(*a, **kw)
+        _TRIP.append((mod, attr, orig))
+        setattr(mod, attr, trip)
+
+
+def _disarm_tripwires():
+    while _TRIP:
+        mod, attr, orig = _TRIP.pop()
+        setattr(mod, attr, orig)
 
 
 def _install_hook():
@@ -52,6 +77,7 @@ def plan(tier, scale):
         n_enc, n_dec, sh = 40000, 50000, 12
     out = [{"part": "encode", "n": int(n_enc * scale)} for _ in range(sh)]
     out += [{"part": "decode", "n": int(n_dec * scale)} for _ in range(sh)]
+    out.append({"part": "alltags"})
     if tier == "thorough":
         out += [{"part": "atheris", "runs": int(600000 * scale), "corpus": c} for c in ("empty", "seeded")]
     return out
@@ -134,11 +160,13 @@ def check_decode(data, rec, origin="bytes"):
     mods_before = len(sys.modules)
     _audit["events"] = []
     _audit["on"] = True
+    _arm_tripwires()
     try:
         try:
             v = brine.load(data)
         finally:
             _audit["on"] = False
+            _disarm_tripwires()
     except Exception as ex:
         classes.add("dec:raises:" + type(ex).__name__)
         nontrivial = len(data) >= 2 and data[0] in CONTAINER_TAGS
@@ -193,13 +221,21 @@ def decode_inputs():
     mut = st.tuples(valid, st.lists(st.tuples(st.integers(0, 6), st.integers(0, 4095), st.integers(0, 255)),
                                     min_size=0, max_size=4)).map(
         lambda t: ("mutated" if t[1] else "valid", _mutate(t[0], t[1])))
-    return st.one_of(raw, tagged, mut, mut)
+    anytag = st.tuples(st.integers(0, 255), st.binary(max_size=16)).map(lambda t: ("anytag", bytes([t[0]]) + t[1]))
+    return st.one_of(raw, tagged, anytag, mut, mut)
 
 
 def run_shard(desc, seed, rec, tier):
     if desc["part"] == "encode":
         strat = st.one_of(vals.immutables(), vals.immutables(), vals.non_dumpables())
         drive(rec, strat, lambda spec: check_encode(spec, rec), desc["n"], seed)
+    elif desc["part"] == "alltags":
+        import hashlib
+        for tag in range(256):
+            for j in range(6):
+                tail = hashlib.shake_256(b"%d/%d/%d" % (seed, tag, j)).digest((0, 1, 4, 9, 17, 40)[j])
+                for f in rec.triage(check_decode(bytes([tag]) + tail, rec, "alltags")):
+                    rec.violation(f)
     elif desc["part"] == "decode":
         drive(rec, decode_inputs(), lambda t: check_decode(t[1], rec, t[0]), desc["n"], seed)
     elif desc["part"] == "atheris":
